@@ -72,6 +72,7 @@ func main() {
 		})
 	}
 	sort.Strings(rels)
+	collectFields(*repo, rels)
 	var muts []mutant
 	for _, rel := range rels {
 		src, err := os.ReadFile(filepath.Join(*repo, rel))
@@ -186,12 +187,57 @@ func evaluate(m mutant, repo, dir, checker, out string) string {
 	return "CAUGHT " + strings.Join(ids, ",")
 }
 
+// structFields: package dir -> field name -> list of (struct, type text); filled by collectFields.
+type fieldInfo struct{ Struct, Type string }
+
+var structFields = map[string]map[string][]fieldInfo{}
+var structMembers = map[string]map[string][]string{} // dir -> struct|type -> field names
+
+func collectFields(repo string, rels []string) {
+	for _, rel := range rels {
+		dir := filepath.Dir(rel)
+		src, err := os.ReadFile(filepath.Join(repo, rel))
+		if err != nil {
+			continue
+		}
+		fset := token.NewFileSet()
+		f, err := parser.ParseFile(fset, rel, src, 0)
+		if err != nil {
+			continue
+		}
+		if structFields[dir] == nil {
+			structFields[dir] = map[string][]fieldInfo{}
+			structMembers[dir] = map[string][]string{}
+		}
+		ast.Inspect(f, func(n ast.Node) bool {
+			ts, ok := n.(*ast.TypeSpec)
+			if !ok {
+				return true
+			}
+			st, ok := ts.Type.(*ast.StructType)
+			if !ok {
+				return true
+			}
+			for _, fl := range st.Fields.List {
+				tt := string(src[fset.Position(fl.Type.Pos()).Offset:fset.Position(fl.Type.End()).Offset])
+				for _, nm := range fl.Names {
+					structFields[dir][nm.Name] = append(structFields[dir][nm.Name], fieldInfo{ts.Name.Name, tt})
+					k := ts.Name.Name + "|" + tt
+					structMembers[dir][k] = append(structMembers[dir][k], nm.Name)
+				}
+			}
+			return true
+		})
+	}
+}
+
 func enumerate(rel string, src []byte) []mutant {
 	fset := token.NewFileSet()
 	f, err := parser.ParseFile(fset, rel, src, parser.ParseComments)
 	if err != nil {
 		return nil
 	}
+	pkgdir := filepath.Dir(rel)
 	off := func(p token.Pos) int { return fset.Position(p).Offset }
 	var out []mutant
 	add := func(n ast.Node, start, end token.Pos, repl, kind, fn string) {
@@ -225,6 +271,37 @@ func enumerate(rel string, src []byte) []mutant {
 				fn = id.Name + "." + fn
 			}
 		}
+		sib := map[string][]string{}
+		groups := func(ft *ast.FuncType) {
+			if ft == nil || ft.Params == nil {
+				return
+			}
+			byType := map[string][]string{}
+			for _, fl := range ft.Params.List {
+				tt := string(src[off(fl.Type.Pos()):off(fl.Type.End())])
+				for _, nm := range fl.Names {
+					if nm.Name != "_" {
+						byType[tt] = append(byType[tt], nm.Name)
+					}
+				}
+			}
+			for _, names := range byType {
+				for _, a := range names {
+					for _, b := range names {
+						if a != b {
+							sib[a] = append(sib[a], b)
+						}
+					}
+				}
+			}
+		}
+		groups(fd.Type)
+		ast.Inspect(fd.Body, func(n ast.Node) bool {
+			if fl, ok := n.(*ast.FuncLit); ok {
+				groups(fl.Type)
+			}
+			return true
+		})
 		var stack []ast.Node
 		ast.Inspect(fd.Body, func(n ast.Node) bool {
 			if n == nil {
@@ -273,6 +350,13 @@ func enumerate(rel string, src []byte) []mutant {
 					}
 				}
 			case *ast.Ident:
+				if sel, ok := parent.(*ast.SelectorExpr); !(ok && sel.Sel == x) {
+					if kv, ok := parent.(*ast.KeyValueExpr); !(ok && kv.Key == n) {
+						for _, b := range sib[x.Name] {
+							add(x, x.Pos(), x.End(), b, "paramswap", fn)
+						}
+					}
+				}
 				if x.Name == "true" {
 					add(x, x.Pos(), x.End(), "false", "bool", fn)
 				} else if x.Name == "false" {
@@ -288,6 +372,9 @@ func enumerate(rel string, src []byte) []mutant {
 						r = "++"
 					}
 					add(x, id.TokPos, id.TokPos+2, r, "incdec", fn)
+				}
+				if gs, ok := n.(*ast.GoStmt); ok {
+					add(x, gs.Go, gs.Go+token.Pos(len("go")), "", "ungo", fn)
 				}
 				if ds, ok := n.(*ast.DeferStmt); ok {
 					// run immediately instead of deferred
@@ -305,6 +392,34 @@ func enumerate(rel string, src []byte) []mutant {
 			case *ast.ReturnStmt:
 				if len(x.Results) == 0 {
 					add(x, x.Pos(), x.End(), "{}", "delreturn", fn)
+				}
+				for _, r := range x.Results {
+					if id, ok := r.(*ast.Ident); ok && (id.Name == "err" || strings.HasSuffix(id.Name, "Err")) && len(x.Results) > 0 {
+						add(x, id.Pos(), id.End(), "nil", "errnil", fn)
+					}
+				}
+			case *ast.SelectorExpr:
+				// x.f -> x.g for every other field g of the same struct with the same declared type
+				if _, isCallFun := parent.(*ast.CallExpr); !(isCallFun && parent.(*ast.CallExpr).Fun == n) {
+					seen := map[string]bool{}
+					for _, fi := range structFields[pkgdir][x.Sel.Name] {
+						for _, g := range structMembers[pkgdir][fi.Struct+"|"+fi.Type] {
+							if g != x.Sel.Name && !seen[g] {
+								seen[g] = true
+								add(x, x.Sel.Pos(), x.Sel.End(), g, "fieldswap", fn)
+							}
+						}
+					}
+				}
+			case *ast.CallExpr:
+				for i := 0; i+1 < len(x.Args); i++ {
+					a, b := x.Args[i], x.Args[i+1]
+					ta := string(src[off(a.Pos()):off(a.End())])
+					mid := string(src[off(a.End()):off(b.Pos())])
+					tb := string(src[off(b.Pos()):off(b.End())])
+					if ta != tb {
+						add(x, a.Pos(), b.End(), tb+mid+ta, "argswap", fn)
+					}
 				}
 			case *ast.BranchStmt:
 				if x.Label == nil {
